@@ -203,6 +203,14 @@ Definition step (h : hstate) (line : bytes) : res (hstate * list bytes) :=
     | Panic k => Panic k
     | OutOfFuel => OutOfFuel
     end
+  else if beq_bytes op [77] then
+    do v <- valof s rest hd;
+    match create_nested2 s v with
+    | Ok (s', (p, m, c)) => Ok (mkH s' (h_tr h) (hd ++ [p; m; c]) (h_prom h) (h_prev h), [rtext p; rtext m; rtext c])
+    | Err e => Ok (h, [etext e])
+    | Panic k => Panic k
+    | OutOfFuel => OutOfFuel
+    end
   else if beq_bytes op [85] then
     let '(t1, t2) := tok rest [] in
     match refd t1 hd with
